@@ -277,9 +277,18 @@ fn gen_txns(rng: &mut Rng, thorough: bool) -> Vec<Vec<Op>> {
                     3 => Op::DelA(rng.below(500)),
                     4..=6 => {
                         let mut k = rng.pick(&prefixes).to_string();
-                        k.push_str(&"x".repeat(rng.below(60) as usize));
-                        k.push_str(&format!("{:04}", rng.below(300)));
-                        Op::PutS(k, *rng.pick(&[0usize, 8, 100, 700, 3000]))
+                        if rng.chance(1, 2) {
+                            // keys of different lengths next to each other: the right neighbour may be
+                            // just the shared prefix plus one character while the left one is longer
+                            for _ in 0..rng.below(4) {
+                                k.push(*rng.pick(&['a', 'b', 'c', '\u{e9}']));
+                            }
+                            Op::PutS(k, *rng.pick(&[100usize, 700, 700, 1500]))
+                        } else {
+                            k.push_str(&"x".repeat(rng.below(60) as usize));
+                            k.push_str(&format!("{:04}", rng.below(300)));
+                            Op::PutS(k, *rng.pick(&[0usize, 8, 100, 700, 3000]))
+                        }
                     }
                     7 => {
                         let mut k = rng.pick(&prefixes).to_string();
@@ -426,16 +435,32 @@ pub fn run(args: &Args) {
     out.comment(&format!("C19 compat seed={} thorough={}", args.seed, args.thorough));
     let n = if args.thorough { 400 } else { 24 };
     let debug_case: Option<usize> = std::env::var("VERIF_C19_DEBUG_CASE").ok().and_then(|x| x.parse().ok());
-    // corpus first: programs of past findings, identified by (seed, case index) of the run that found them
+    // corpus first: the situation of the known finding F5 (a cleanly closed file written by this
+    // code without a single free page, which redb 3.0.0 has to grow while opening it). Candidate
+    // programs come from a fixed generator sequence - independent of --seed - and the first one
+    // that produces the situation is run as case 1, so that the finding is re-examined on every run
     let mut plan: Vec<(Vec<Vec<Op>>, bool, bool)> = vec![];
-    for (seed, case) in [(3u64, 10usize)] {
-        let mut rg = Rng::new(seed ^ 0xC19);
-        let mut txns = vec![];
-        for _ in 0..=case {
-            let mut r = rg.fork();
-            txns = gen_txns(&mut r, false);
+    for i in 0..60u64 {
+        let mut rg = Rng::new(0xF5F5 ^ (i * 7919));
+        let txns = gen_txns(&mut rg, false);
+        let full = catch_unwind(AssertUnwindSafe(|| -> bool {
+            let bytes = Arc::new(Mutex::new(vec![]));
+            let Ok(db) = cur::open(&bytes) else { return false };
+            if cur::run(&db, &txns, &Contents::default()).is_err() {
+                return false;
+            }
+            drop(db);
+            let len = bytes.lock().unwrap().len();
+            let Ok(db) = old::open(&bytes) else { return false };
+            let grew = bytes.lock().unwrap().len() > len;
+            drop(db);
+            grew
+        }))
+        .unwrap_or(false);
+        if full {
+            plan.push((txns, true, false));
+            break;
         }
-        plan.push((txns, case % 2 == 0, case % 3 == 2));
     }
     for case in 0..n {
         let mut r = rng.fork();
